@@ -29,7 +29,11 @@ def batch_oracle(ctx, lines, impl):
         inl, par, vals, lits = qcommon.split_out(impl[i])
         t = toks[(b, par)]
         if t == "LEXFAIL":
-            continue  # not lexable for reasons unrelated to placeholders (custom SQL text): other properties
+            # custom SQL text may be unlexable for reasons unrelated to placeholders (other properties); a statement
+            # built without any raw text must lex: every character of it was written by the renderer
+            if "cust" not in lines[i]:
+                verdicts[i] = "the parameterised SQL is not lexable by the engine although no raw SQL text was given"
+            continue
         ps = [int(x[1:]) for x in t.split(" ")[:-1] if x.startswith("P")]
         checked += 1
         if len(ps) != len(vals):
